@@ -29,17 +29,21 @@ type c05Frame struct {
 }
 
 type c05Run struct {
-	ServerSide bool       `json:"server_side"` // real code is the accepting side
-	Buf        uint32     `json:"buf"`
-	SegMode    int        `json:"seg_mode"`
-	Latency    string     `json:"latency"`
-	Frames     []c05Frame `json:"frames"`
-	EOFAt      int        `json:"eof_at"`               // byte offset in the stream after which the peer closes (-1: after all)
-	Cuts       []int      `json:"write_cuts,omitempty"` // the peer issues one Write per piece between these offsets
-	Gap        string     `json:"write_gap,omitempty"`  // fake time the peer sleeps between two writes
-	gap        time.Duration
-	stream     []byte
-	lat        time.Duration
+	ServerSide bool   `json:"server_side"` // real code is the accepting side
+	Buf        uint32 `json:"buf"`
+	// HelBuf: buffer sizes of the Hello (what the dialing side announces / what the raw
+	// peer announces to the accepting side); Buf is what the Acknowledge carries. Equal
+	// in two thirds of the runs.
+	HelBuf  uint32     `json:"hello_buf"`
+	SegMode int        `json:"seg_mode"`
+	Latency string     `json:"latency"`
+	Frames  []c05Frame `json:"frames"`
+	EOFAt   int        `json:"eof_at"`               // byte offset in the stream after which the peer closes (-1: after all)
+	Cuts    []int      `json:"write_cuts,omitempty"` // the peer issues one Write per piece between these offsets
+	Gap     string     `json:"write_gap,omitempty"`  // fake time the peer sleeps between two writes
+	gap     time.Duration
+	stream  []byte
+	lat     time.Duration
 }
 
 func (r *c05Run) Sample() any { return r }
@@ -48,11 +52,16 @@ func (r *c05Run) Setup(s *sim.Sim) {
 	p := s.Plan
 	r.ServerSide = p.Bool()
 	r.Buf = sim.Pick(p, uint32(8192), 8192, 8193, 16384, 65535, 65536, 1<<20)
+	r.HelBuf = r.Buf
+	if p.Intn(3) == 0 {
+		r.HelBuf = sim.Pick(p, uint32(8192), 8193, 16384, 65535, 65536, 1<<20)
+	}
 	r.SegMode = p.Intn(4)
 	r.lat = sim.Pick(p, 0, time.Millisecond, 20*time.Millisecond)
 	r.Latency = r.lat.String()
 	if r.SegMode == sim.SegTiny {
 		r.Buf = sim.Pick(p, uint32(8192), 8193)
+		r.HelBuf = r.Buf
 	}
 	n := 1 + p.Intn(12)
 	if p.Chance(1, 8) && r.Buf <= 65536 {
@@ -201,7 +210,7 @@ func (r *c05Run) Main(s *sim.Sim) {
 			conn = c
 			acc <- err
 		}()
-		pc.Write(refcodec.Hello{RecvBuf: r.Buf, SendBuf: r.Buf, Endpoint: ep}.Frame())
+		pc.Write(refcodec.Hello{RecvBuf: r.HelBuf, SendBuf: r.HelBuf, Endpoint: ep}.Frame())
 		if _, err := refcodec.ReadFrame(pc, 1<<16); err != nil {
 			s.Fail("C05", "harness", "ack", "%v", err)
 			return
@@ -232,7 +241,7 @@ func (r *c05Run) Main(s *sim.Sim) {
 			_, err = pc.Write(refcodec.Ack{RecvBuf: r.Buf, SendBuf: r.Buf}.Frame())
 			pch <- err
 		}()
-		d := &uacp.Dialer{ClientACK: ack}
+		d := &uacp.Dialer{ClientACK: &uacp.Acknowledge{ReceiveBufSize: r.HelBuf, SendBufSize: r.HelBuf}}
 		c, err := d.Dial(ctx, ep)
 		if err != nil {
 			s.Fail("C05", "harness", "dial", "%v", err)
@@ -246,8 +255,18 @@ func (r *c05Run) Main(s *sim.Sim) {
 	}
 	defer conn.Close()
 	if conn.ReceiveBufSize() != r.Buf {
+		if r.HelBuf != r.Buf {
+			// Hello and Acknowledge differ and the connection settled on something other than the
+			// Acknowledge's value: the frame sizes of this plan were drawn for that value (what
+			// each side must accept under asymmetric announcements is C06's subject)
+			s.Probe("negotiated-other-than-acknowledged")
+			return
+		}
 		s.Fail("C05", "harness", "bufsize", "conn reports receive buffer %d, want %d", conn.ReceiveBufSize(), r.Buf)
 		return
+	}
+	if r.HelBuf != r.Buf {
+		s.Probe("hello-and-acknowledge-differ")
 	}
 
 	// receiver loop (real code)
